@@ -703,6 +703,42 @@ func genBad(t *rapid.T) BadCase {
 	}
 }
 
+// rejectedEveryTime: an unusable Funcs map is rejected at every set-up of a reusable Interpreter, not only at the
+// first (a program that calls a usable function beside it must never get to run with a half-built table)
+func rejectedEveryTime(what string, funcs map[string]any) (msg string) {
+	defer func() {
+		if r := recover(); r != nil {
+			msg = fmt.Sprintf("%s: a later Execute on the same Interpreter panicked: %v", what, r)
+		}
+	}()
+	all := map[string]any{"aaa_good": func(a int) int { return a + 1 }, "zzz_good": func(s string) string { return s + "!" }}
+	for k, v := range funcs {
+		all[k] = v
+	}
+	prog, err := parser.ParseProgram([]byte(`BEGIN { print "x", aaa_good(1), zzz_good("y") }`), &parser.ParserConfig{Funcs: map[string]any{"aaa_good": all["aaa_good"], "zzz_good": all["zzz_good"]}})
+	if err != nil {
+		return "harness: " + err.Error()
+	}
+	it, err := interp.New(prog)
+	if err != nil {
+		return "harness: " + err.Error()
+	}
+	for i := 1; i <= 3; i++ {
+		var out bytes.Buffer
+		_, err := it.Execute(&interp.Config{Output: &out, Stdin: strings.NewReader(""), Environ: []string{}, Funcs: all})
+		if err == nil {
+			return fmt.Sprintf("%s: Execute #%d on one Interpreter accepted the unusable Funcs map (output %q)", what, i, out.String())
+		}
+		if out.Len() != 0 {
+			return fmt.Sprintf("%s: Execute #%d produced output %q although set-up must fail first", what, i, out.String())
+		}
+		if i == 2 {
+			it.ResetVars()
+		}
+	}
+	return ""
+}
+
 func runBad(x *h.Ctx, c BadCase) string {
 	switch {
 	case c.Which == "too-many-args":
@@ -737,6 +773,9 @@ func runBad(x *h.Ctx, c BadCase) string {
 		if out.Len() != 0 {
 			return fmt.Sprintf("output %q was produced although setup must fail first", out.String())
 		}
+		if msg := rejectedEveryTime("native function named "+name, map[string]any{name: func() {}}); msg != "" {
+			return msg
+		}
 	default:
 		prog, err := parser.ParseProgram([]byte(`BEGIN { print "x" }`), nil)
 		if err != nil {
@@ -753,6 +792,9 @@ func runBad(x *h.Ctx, c BadCase) string {
 		}
 		if out.Len() != 0 {
 			return fmt.Sprintf("output %q was produced although setup must fail first", out.String())
+		}
+		if msg := rejectedEveryTime("shape "+c.Which, map[string]any{"badf": badShapes[c.Which]}); msg != "" {
+			return msg
 		}
 		// the same value given to the parser, with a program that calls it: a parse error or a setup error, never a panic
 		if msg := func() (msg string) {
